@@ -808,7 +808,7 @@ def run(env: Env) -> Outcome:
         k2(env, out, workdir)
         # ---- corpus: hand-picked workflows, every journal length; then the two known-finding witnesses
         for c in CORPUS_INLINE:
-            run_case(c["spec"], c["seed"], out, env, other_p=0.5, max_recover=env.budget(14, 60), name="corpus:" + c["name"],
+            run_case(c["spec"], c["seed"], out, env, other_p=0.5, max_recover=env.budget(10, 60), name="corpus:" + c["name"],
                      second_level=1 if env.tier != "quick" else 0)
         for fn in CORPUS_FILES:
             path = os.path.join(VERIF, "harness", "corpus", fn)
@@ -819,21 +819,21 @@ def run(env: Env) -> Outcome:
             run_case(c["spec"], c["seed"], out, env, actions=c.get("actions"), other_p=c.get("other_p", 0.0),
                      select=_selector(c.get("select")), name="witness:" + fn)
         # ---- generated: deterministic family, timer-free (the guards of the theorems hold: monitors must be silent)
-        n_specs = env.budget(3, 12)
+        n_specs = env.budget(3, 20)
         for i in range(n_specs):
             spec = specgen.gen_det_spec(env.rng)
             out.count("spec:det")
             run_case(spec, env.rng.randrange(1 << 30), out, env, other_p=0.15 if env.tier == "quick" else 0.4,
-                     max_recover=env.budget(8, 45), name=f"det{i}", second_level=0 if env.tier == "quick" else 1)
+                     max_recover=env.budget(7, 45), name=f"det{i}", second_level=0 if env.tier == "quick" else 1)
         # ---- generated: general timer-free workflows (failures, handlers, collects): replayed part only
-        for i in range(env.budget(1, 8)):
+        for i in range(env.budget(1, 12)):
             spec = specgen.gen_spec(env.rng, family="general", allow_wait=False, allow_retry=False, allow_external=False,
                                     allow_timeout=False)
             spec["externals"] = []
             out.count("spec:general")
             run_case(spec, env.rng.randrange(1 << 30), out, env, other_p=0.2, max_recover=env.budget(5, 20), det=False, name=f"gen{i}")
         # ---- generated: retry delays (scheduled wakeups): anything that differs here is classified by its exact cause
-        for i in range(env.budget(1, 6)):
+        for i in range(env.budget(1, 8)):
             spec = specgen.gen_det_spec(env.rng, delays=True)
             out.count("spec:det+delays")
             run_case(spec, env.rng.randrange(1 << 30), out, env, other_p=0.1, max_recover=env.budget(4, 20), name=f"delay{i}")
